@@ -148,7 +148,9 @@ extern "C" int vf_run_case(const uint8_t * data, size_t size)
                   if (t.GetFirstKeyWithDefault(-7) != (m.l.empty() ? -7 : m.l.front().first)) FAIL("GetFirstKeyWithDefault"); if (t.GetLastKeyWithDefault(-7) != (m.l.empty() ? -7 : m.l.back().first)) FAIL("GetLastKeyWithDefault"); if (t.GetFirstValueWithDefault(-8) != (m.l.empty() ? -8 : m.l.front().second)) FAIL("GetFirstValueWithDefault"); if (t.GetLastValueWithDefault(-8) != (m.l.empty() ? -8 : m.l.back().second)) FAIL("GetLastValueWithDefault");} break;
          case 42: name="Intersect"; if (M[0].l.size()+M[1].l.size() > 3000) break; {uint32 removed = 0; std::vector<int> gone; for (ML::iterator i=m.l.begin(); i!=m.l.end(); ++i) if (M[1-w].find(i->first) == M[1-w].l.end()) gone.push_back(i->first); const uint32 r = t.Intersect(*T[1-w]); for (size_t i=0; i<gone.size(); i++) {OnEntryLeaving(w, gone[i]); m.l.erase(m.find(gone[i])); removed++;} if (r != removed) FAIL("Intersect returned %u, model %u", r, removed);} break;
          // (WouldBeEqualToAfterPut/Remove do not compile for a table with a custom hash functor -- their iterators name the default functor -- so they are not exercised here)
-         case 43: case 44: case 45: name="PutAndGet"; {int * r = t.PutAndGet(k, v); if (r == NULL) FAIL("PutAndGet failed"); if (*r != v) FAIL("PutAndGet returned a pointer to %d, expected %d", *r, v); if (f != m.l.end()) f->second = v; else m.l.push_back(std::make_pair(k,v));} break;
+         case 43: name="Put(key, value that lives in this table)"; {const int * pv = t.Get(k2); if (pv) {const int val = *pv; if (t.Put(k, *pv).IsError()) FAIL("Put(aliasing value)"); if (f != m.l.end()) f->second = val; else m.l.push_back(std::make_pair(k, val));}
+                  const int * pk = t.GetKeyAt((uint32)(v%14)); if (pk) {const int key = *pk; if (t.Put(*pk, v).IsError()) FAIL("Put(aliasing key)"); m.find(key)->second = v;}} break;
+         case 44: case 45: name="PutAndGet"; {int * r = t.PutAndGet(k, v); if (r == NULL) FAIL("PutAndGet failed"); if (*r != v) FAIL("PutAndGet returned a pointer to %d, expected %d", *r, v); if (f != m.l.end()) f->second = v; else m.l.push_back(std::make_pair(k,v));} break;
          case 28: name="Put(table)"; if (M[0].l.size()+M[1].l.size() > 3000) break; /* the list model is quadratic here */ {if (T[w]->Put(*T[1-w]).IsError()) FAIL("Put(table)"); for (ML::iterator i=M[1-w].l.begin(); i!=M[1-w].l.end(); ++i) {ML::iterator g = M[w].find(i->first); if (g != M[w].l.end()) g->second = i->second; else M[w].l.push_back(*i);}} break;
          case 29: name="Remove(table keys)"; if (M[0].l.size()+M[1].l.size() > 3000) break; {(void) T[w]->Remove(*T[1-w]); for (ML::iterator i=M[1-w].l.begin(); i!=M[1-w].l.end(); ++i) {if (M[w].find(i->first) != M[w].l.end()) {OnEntryLeaving(w, i->first); M[w].l.erase(M[w].find(i->first));}}} break;
       }
